@@ -40,7 +40,8 @@ def model_eval(progs, fuel=FUEL):
     exe = vlib.model_bin("c01")
     lines = ["P %d %d %s" % (i, fuel, serialize(p)) for i, p in enumerate(progs)]
     res = [None] * len(progs)
-    chunks = [lines[i::vlib.NCPU] for i in range(vlib.NCPU)]
+    nch = 1 if len(lines) <= 8 else vlib.NCPU
+    chunks = [lines[i::nch] for i in range(nch)]
 
     def run(chunk):
         if not chunk:
@@ -704,53 +705,55 @@ def main():
                 check_programs(sel, (o,), "corpus")
     log("[c01] corpus %d programs, %.0fs" % (len(corpus), time.time() - ck.t0))
 
+    legs = os.environ.get("C01_LEGS", "cells,loops,random").split(",")
     # ---- 1. exhaustive operator cells ----------------------------------------------------------
     sc0 = Scope()
     allc = cells(ck.quick)
     n_exprs = 0
     cell_progs, cell_keys, cell_cases = [], [], []
-    # 1a. classify every single case with the model
-    flat = []
-    for key, es in allc:
-        for e in es:
-            if ddpgen.literal_representable_all(e):
-                flat.append((key, e))
-    single = [[["stmt", s] for s in print_core(e, sc0)] for _, e in flat]
-    sm = model_eval(single)
-    per_cell = {}
-    solo = []
-    for (key, e), m, p in zip(flat, sm, single):
-        n_exprs += 1
-        if m is None or m[0].startswith("X"):
-            ck.violation("harness model-driver", "model driver rejected %r: %r" % (e, m), dict(expr=e), no_input=True)
-        elif m[0] == "N":
-            per_cell.setdefault(key, []).append(e)
-        elif m[0] == "L":
-            solo.append((key, p))
-        else:
-            stats["undefined_by_guard"] += 1
-    # 1b. one program per cell with all normally-ending cases; solo programs for Laufzeitfehler cases
-    for key, es in per_cell.items():
-        body = []
-        for e in es:
-            body += print_stmts(e, sc0)
-        cell_progs.append([["stmt", s] for s in body])
-        cell_keys.append(key)
-        cell_cases.append(es)
-    opts_cells = (0, 2) if ck.quick else opts_all
-    check_cells(ck, impl, cell_progs, cell_keys, cell_cases, opts_cells, stats, na_cells, report, sc0)
-    if solo:
-        lim = solo if not ck.quick else solo[:: max(1, len(solo) // 150)]
-        check_programs([p for _, p in lim], (0,) if ck.quick else (0, 2), "exhaustive", keys=[k for k, _ in lim])
-    log("[c01] exhaustive: %d cells, %d expressions, %.0fs" % (len(allc), n_exprs, time.time() - ck.t0))
+    if "cells" in legs:
+        # 1a. classify every single case with the model
+        flat = []
+        for key, es in allc:
+            for e in es:
+                if ddpgen.literal_representable_all(e):
+                    flat.append((key, e))
+        single = [[["stmt", s] for s in print_core(e, sc0)] for _, e in flat]
+        sm = model_eval(single)
+        per_cell = {}
+        solo = []
+        for (key, e), m, p in zip(flat, sm, single):
+            n_exprs += 1
+            if m is None or m[0].startswith("X"):
+                ck.violation("harness model-driver", "model driver rejected %r: %r" % (e, m), dict(expr=e), no_input=True)
+            elif m[0] == "N":
+                per_cell.setdefault(key, []).append(e)
+            elif m[0] == "L":
+                solo.append((key, p))
+            else:
+                stats["undefined_by_guard"] += 1
+        # 1b. one program per cell with all normally-ending cases; solo programs for Laufzeitfehler cases
+        for key, es in per_cell.items():
+            body = []
+            for e in es:
+                body += print_stmts(e, sc0)
+            cell_progs.append([["stmt", s] for s in body])
+            cell_keys.append(key)
+            cell_cases.append(es)
+        opts_cells = (0, 2) if ck.quick else opts_all
+        check_cells(ck, impl, cell_progs, cell_keys, cell_cases, opts_cells, stats, na_cells, report, sc0)
+        if solo:
+            lim = solo if not ck.quick else solo[:: max(1, len(solo) // 150)]
+            check_programs([p for _, p in lim], (0,) if ck.quick else (0, 2), "exhaustive", keys=[k for k, _ in lim])
+        log("[c01] exhaustive: %d cells, %d expressions, %.0fs" % (len(allc), n_exprs, time.time() - ck.t0))
 
     # ---- 2. statement grid ---------------------------------------------------------------------
-    lc = loop_cells(ck.quick)
+    lc = loop_cells(ck.quick) if "loops" in legs else []
     check_programs([[["stmt", s]] for _, s in lc], opts_all, "loop-grid", keys=[k for k, _ in lc])
     log("[c01] loop grid: %d programs, %.0fs" % (len(lc), time.time() - ck.t0))
 
     # ---- 3. random programs --------------------------------------------------------------------
-    n_rand = 300 if ck.quick else 5000
+    n_rand = (300 if ck.quick else 5000) if "random" in legs else 0
     progs = []
     gstats = {}
     for i in range(n_rand):
